@@ -1132,7 +1132,9 @@ def _workload(run):
     run.note("alphabet", [str(op_digest(o)) for o in A])
     idx = 0
     done_enum = True
-    frac = 0.8 if run.tier == "quick" else 0.4
+    # the enumeration is the seed-independent core: it may use nearly the whole budget on a slow
+    # machine (the sampled histories then get what is left); not finishing it is inconclusive
+    frac = 0.93 if run.tier == "quick" else 0.5
     for n in (1, 2, 3):
         for combo in itertools.product(range(len(A)), repeat=n):
             idx += 1
@@ -1170,6 +1172,7 @@ def _workload(run):
             if not done_enum:
                 break
     run.note("enumeration_complete", done_enum)
+    run.note("enumeration_seconds", round(run.elapsed(), 1))
     if not done_enum:
         run.inconclusive("enumeration of the length<=3 histories did not finish within the budget")
     maxlen = 8 if run.tier == "quick" else 12
